@@ -323,13 +323,15 @@ Fixpoint cname_scan (fuel : nat) (m : bytes) (s : sect) (name : pname) : outcome
       end
   end.
 
-Fixpoint cname_chase (rounds : nat) (m : bytes) (ans : sect) (name : pname) : outcome (option pname) :=
+(* `scan` is the fuel of one pass over the answer section (computed once) *)
+Fixpoint cname_chase (rounds : nat) (scan : nat) (m : bytes) (ans : sect) (name : pname)
+  : outcome (option pname) :=
   match rounds with
   | O => Ok None
   | S rounds' =>
-      do f <- cname_scan (sec_fuel ans) m ans name;
+      do f <- cname_scan scan m ans name;
       match f with
-      | Some target => cname_chase rounds' m ans target
+      | Some target => cname_chase rounds' scan m ans target
       | None => Ok (Some name)
       end
   end.
@@ -352,7 +354,7 @@ Definition canonical_name (m : bytes) : outcome (option pname) :=
       | Ok ans =>
           do an <- count_at m an_off;
           do rounds <- canonical_rounds an;
-          cname_chase (N.to_nat rounds) m ans (q_name q)
+          cname_chase (N.to_nat rounds) (sec_fuel ans) m ans (q_name q)
       end
   end.
 
